@@ -614,6 +614,13 @@ class Polygon(PolygonTensor, Polytope):
 class PolygonCollection(PolygonTensor, PolytopeCollection[Polygon]):
     _element_class = Polygon
 
+    def expand_dims(self, axis: int) -> PolygonCollection:
+        result = super().expand_dims(axis)
+        if result._plane is not None:
+            # the supporting planes have one axis less than the vertex array
+            result._plane = result._plane.expand_dims(axis + 1 if axis < 0 else axis)
+        return result
+
 
 class RegularPolygon(Polygon):
     """A class that can be used to construct regular polygon from a radius and a center point.
